@@ -20,7 +20,7 @@ from vlib.tr_filter import tr_filter
 from vlib.tr_wrapper import tr_wrapper
 from vlib.tr_output import tr_output
 from vlib.syslevel import build_prod, per_call, call_line, run_many
-from vlib.filt import AREA, UIDS, build_impl, alphabet, chains_upto, random_chain, boundary_chains, measure_singles, probe, parse_elems, table_of, run_script_as, stage_tools, shrink_list, FAST_ASAN
+from vlib.filt import AREA, UIDS, build_impl, alphabet, chains_upto, random_chain, boundary_chains, measure_singles, probe, parse_elems, table_of, run_script_as, stage_tools, shrink_list, FAST_ASAN, run_uidhist
 
 SINKS = ["sink\tfile\tout\t@D@/out.log", "sink\tpipe\tso\t1", "sink\tpipe\tse\t2", "sink\tdgram\tsock\t@D@/s.sock",
          "sink\tdevlog\tdevlog\t@D@/devlog.sock", "sink\ttty\ttty"]
@@ -236,6 +236,49 @@ def mt_stream(run, exe, limit):
     return {"cases": len(cases), "threads": sorted(set(len(c.split("\t")[5].split(",")) for c in cases)), "evaluations": ncalls}
 
 
+# ------------------------------------------------------------------------------------------------ uid histories in one process image
+HIST_SEQ = [(0, 4242), (1000, 4242), (65534, 4242), (1000, 1000), (0, 0), (4294967294, 4242), (4242, 7), (0, 4242)]
+
+
+def hist_ini(chain):
+    return b"[snoopy]\nmessage_format = \"%{cmdline}\"\noutput = file:@D@/out.log\nfilter_chain = \"" + chain + b"\"\n"
+
+
+def hist_stream(run, exe, lib, tier):
+    """several exec calls of ONE process image with the real uid / gid changed in between (production wrapper, file output): each call is
+    logged iff the chain passes for the uid the process has AT THAT CALL (chain model over the verdicts measured at function level)"""
+    chains = [b"only_uid:1000", b"exclude_uid:1000", b"only_root", b"only_uid:0,65534", b"exclude_uid:0;only_uid:1000,0,4294967294", b"only_root:x;noop",
+              b"only_uid:4242", b"exclude_uid:4242,7", b"noop;exclude_uid:65534;only_uid:65534,1000"]
+    seqs = [HIST_SEQ, HIST_SEQ[::-1]] if tier == "quick" else [HIST_SEQ, HIST_SEQ[::-1], HIST_SEQ[2:] + HIST_SEQ[:2], HIST_SEQ[5:] + HIST_SEQ[:5]]
+    pairs = [((u, u, 0), c) for c in chains for (u, g) in HIST_SEQ]
+    lines, singles, el = chain_cases(run, exe, pairs, "hist")
+    pp = os.path.join(run.scratch, "c07-hist-pred.txt")
+    open(pp, "w").write("".join(l + "\n" for l in lines))
+    pred = dict(zip([(st[0], c) for (st, c) in pairs], run.run_model(AREA, pp, pp + ".out")))
+    jobs = [(c, sq) for c in chains for sq in seqs]
+    outs = run_many(lambda j: run_uidhist(run, lib, hist_ini(jobs[j][0]), jobs[j][1], "%d" % j), range(len(jobs)), workers=4)
+    ncalls = 0
+    for (c, sq), o in zip(jobs, outs):
+        if isinstance(o, str) or len(o) != len(sq):
+            run.violation("e2e:history-caller-died", "crash", "process with uid history %s and chain %r ended abnormally: %s" % (sq, c, o),
+                          {"failing_input": {"filter_chain": c.decode("latin1"), "uid_gid_history": sq}, "hist": {"chain": c.decode("latin1"), "seq": sq}})
+            continue
+        for k, (u, g, grew, ret, err) in enumerate(o):
+            ncalls += 1
+            p = pred.get((u, c), "")
+            if not p.startswith("ok\t"):
+                continue
+            want = p == "ok\tP"
+            if (grew > 0) != want or ret != -1:
+                run.violation("e2e:history", "spec_violation",
+                              "call %d of one process image (real uid/gid history %s): under real uid %d the chain %r decides '%s' but the call was %s%s"
+                              % (k + 1, sq[: k + 1], u, c, "pass" if want else "drop", "logged" if grew > 0 else "not logged", "" if ret == -1 else "; exec result %d" % ret),
+                              {"failing_input": {"filter_chain": c.decode("latin1"), "uid_gid_history": sq[: k + 1], "predicted": "pass" if want else "drop"},
+                               "hist": {"chain": c.decode("latin1"), "seq": sq[: k + 1], "want_last": want}})
+                break
+    return {"processes": len(jobs), "calls": ncalls, "history": HIST_SEQ}
+
+
 # ------------------------------------------------------------------------------------------------ end to end
 def e2e(run, exe, fc, alpha, tier, rng, pty_ok=True):
     lib = build_prod(run)
@@ -249,7 +292,9 @@ def e2e(run, exe, fc, alpha, tier, rng, pty_ok=True):
         oname, oarg, sink = OUTS[i % len(OUTS)]
         chains = list(pairs_ch)
         chains += [random_chain(rng, alpha[:10] + alpha[11:], 900) for _ in range(25 if tier == "quick" else 150)]
-        chains = [c for c in chains if b'"' not in c and b" " not in c and b"\n" not in c and b"#" not in c]
+        # what the INI line cannot carry verbatim: quotes, newlines, '#', a blank in front of ';' (inline comment) or at either end
+        chains = [c for c in chains if b'"' not in c and b"\n" not in c and b"#" not in c and b"\t" not in c and b"\r" not in c
+                  and b" ;" not in c and c == c.strip() and all(32 <= x < 127 for x in c)]
         procs.append({"uid": u, "tty": t, "out": oname, "oarg": oarg, "sink": sink, "chains": chains, "extra": b"", "fmt": b"%{cmdline}"})
     long_arg = b"y" * 400       # with error logging on, the message overflow is reported through the error handler
     # error logging on, a failing data source and a message that overflows its limit (error handler): a dropped call must stay silent all the same
@@ -395,6 +440,8 @@ def check(run):
     mt = mt_stream(run, exe, limit) if not crashed else {"cases": 0}
     # ---- end to end
     ee = e2e(run, exe, fc, alpha, run.tier, rng, pty_ok) if not crashed else {"calls": 0, "processes": 0, "skipped": True}
+    if not crashed:
+        ee["uid_histories"] = hist_stream(run, exe, build_prod(run), run.tier)
     nv_total = len(run.violations)
     if not ok and nv_total == 0:
         run.violation("proof:%s" % failed, "proof", "proof obligation no longer checks: %s; %s\n%s" % (failed, "; ".join(n for n in run.notes if n.startswith("translator") or n.startswith("skeleton")) or "the translator recognised every statement (the regenerated constants themselves violate the side condition)", log[-1500:]),
@@ -439,6 +486,16 @@ def replay(run, path):
     run.snapshot()
     fc = tr_filter(run)
     exe = build_impl(run)
+    if rep.get("hist"):
+        lib = build_prod(run)
+        h = rep["hist"]
+        o = run_uidhist(run, lib, hist_ini(h["chain"].encode("latin1")), [tuple(x) for x in h["seq"]], "replay")
+        print("chain:", h["chain"], " history (uid, gid):", h["seq"])
+        print("per call (uid, gid, bytes logged, ret, errno):", o)
+        bad = isinstance(o, str) or len(o) != len(h["seq"]) or ((o[-1][2] > 0) != h.get("want_last", True))
+        print("last call predicted:", "pass" if h.get("want_last") else "drop")
+        run.cleanup()
+        return 1 if bad else 0
     if rep.get("script"):
         lib = build_prod(run)
         r = run_script_as(run, lib, rep["script"], "replay", rep.get("uid", 0), rep.get("tty", 0), timeout=120)
